@@ -178,6 +178,9 @@ func (E *Engine) allocFacts(st *State, v *Val) []string {
 				return
 			}
 			if sh.Kind == "iface" {
+				if E.CS.PtrIfaces[namedKey(v.T)] {
+					out = append(out, or(eq(v.F[1].S, "0"), sx("select", st.alloc, v.F[1].S)))
+				}
 				return
 			}
 			for _, f := range v.F {
